@@ -156,6 +156,9 @@ func (in *Interp) ensureInit(pkg *ssa.Package) {
 			in.ensureInit(ip)
 		}
 	}
+	if noInitPkgs[pkg.Pkg.Path()] {
+		return // generated code whose initialiser only registers descriptors with a runtime that is not modelled
+	}
 	if f := pkg.Func("init"); f != nil {
 		in.call(nil, f, nil)
 	}
@@ -284,7 +287,7 @@ func (in *Interp) callSSA(caller *frame, fn *ssa.Function, args []Value, env []V
 			}
 		}
 	}
-	if fn.Pkg != nil && fn.Name() == "init" && fn.Parent() == nil && fn.Signature.Recv() == nil && !in.cfg.isRepoPkg(fn.Pkg.Pkg.Path()) {
+	if fn.Pkg != nil && fn.Name() == "init" && fn.Parent() == nil && fn.Signature.Recv() == nil && (!in.cfg.isRepoPkg(fn.Pkg.Pkg.Path()) || noInitPkgs[fn.Pkg.Pkg.Path()]) {
 		return nil // dependency package initialisers are not executed (DESIGN 2.2)
 	}
 	if fn.Blocks == nil {
@@ -1213,4 +1216,8 @@ var _ = debug.Stack
 var allowedFuncs = map[string]bool{
 	"(*fmt.wrapError).Unwrap": true, "(*fmt.wrapError).Error": true,
 	"(*fmt.wrapErrors).Unwrap": true, "(*fmt.wrapErrors).Error": true,
+}
+
+var noInitPkgs = map[string]bool{
+	"github.com/godaddy/asherah/server/go/api": true,
 }
